@@ -145,6 +145,45 @@ class Gen:
         bail(st, 'statement: ' + text[:80])
 
 
+WORLD_CONNECT = [
+    'attr_pairs: Set[Tuple[Attr, Attr]] = set(((a, a) if isinstance(a, str) else a for a in attr_pairs))',
+    'errors: List[ScenarioError] = []',
+    'for src_attr, dest_attr in attr_pairs:\n    try:\n        self.connect_one(src, dest, src_attr, dest_attr, time_shifted=time_shifted, weak=weak, initial_data=initial_data.get(src_attr, SENTINEL))\n    except ScenarioError as e:\n        errors.append(e)',
+    "if errors:\n    raise ScenarioError('While connecting entities, the following errors occurred:\\n - ' + '\\n - '.join((str(e) for e in errors)))",
+    'if async_requests:\n    self.connect_async_requests(src.model_mock._factory, dest.model_mock._factory)',
+    'trigger: Set[Tuple[EntityId, Attr]] = set()',
+    'for src_attr, dest_attr in attr_pairs:\n    if dest.triggered_by(dest_attr):\n        trigger.add((src.eid, src_attr))',
+    'self.entity_graph.add_edge(src.full_id, dest.full_id)',
+]
+CONNECT_ASYNC = [
+    'src_sim = self.sims[src._sid]', 'dest_sim = self.sims[dest._sid]', 'delay = connect_interval(src._group, dest._group)',
+    'src_sim.successors[dest_sim] = delay', 'src_sim.successors_to_wait_for[dest_sim] = delay', 'dest_sim.input_delays[src_sim] = delay',
+]
+
+
+def skeletons(cls):
+    """World.connect and World.connect_async_requests are compared with the text the model (Static/Build.v connect) assumes: every
+    attribute pair goes through connect_one with the call's own flags, the collected errors are raised BEFORE the async-requests
+    relation is entered (a rejected call leaves nothing behind: finding F23), and that relation is the plain interval of the two
+    groups in successors, successors_to_wait_for and input_delays"""
+    def body_of(name):
+        f = [n for n in cls.body if isinstance(n, ast.FunctionDef) and n.name == name]
+        if len(f) != 1: raise Unsupported(f'World.{name} not found')
+        b = list(f[0].body)
+        if b and isinstance(b[0], ast.Expr) and isinstance(b[0].value, ast.Constant) and isinstance(b[0].value.value, str): b = b[1:]
+        return f[0], b
+    f, b = body_of('connect')
+    sig = [a.arg for a in f.args.args] + ['*' + f.args.vararg.arg if f.args.vararg else ''] + [a.arg for a in f.args.kwonlyargs]
+    if sig != ['self', 'src', 'dest', '*attr_pairs', 'async_requests', 'time_shifted', 'initial_data', 'weak']: bail(f, f'signature of World.connect {sig}')
+    got = [ast.unparse(x) for x in b]
+    if got != WORLD_CONNECT:
+        k = next((i for i in range(min(len(got), len(WORLD_CONNECT))) if got[i] != WORLD_CONNECT[i]), min(len(got), len(WORLD_CONNECT)))
+        bail(b[k] if k < len(b) else f, 'World.connect differs from the text the model assumes')
+    f, b = body_of('connect_async_requests')
+    got = [ast.unparse(x) for x in b if not ast.unparse(x).startswith('warnings.warn(')]
+    if got != CONNECT_ASYNC: bail(f, 'World.connect_async_requests differs from the text the model assumes')
+
+
 def main():
     repo, outdir = sys.argv[1], sys.argv[2]
     tree = ast.parse(open(os.path.join(repo, 'mosaik', 'scenario.py')).read())
@@ -153,6 +192,7 @@ def main():
     fns = [n for n in cls[0].body if isinstance(n, ast.FunctionDef) and n.name == 'connect_one']
     if len(fns) != 1: raise Unsupported('World.connect_one not found')
     fn = fns[0]
+    skeletons(cls[0])
     if [a.arg for a in fn.args.args] != ['self', 'src', 'dest', 'src_attr', 'dest_attr', 'time_shifted', 'weak', 'initial_data']: bail(fn, 'signature')
     if [ast.unparse(d) for d in fn.args.defaults] != ['None', 'False', 'False', 'SENTINEL']: bail(fn, 'defaults')
     body = list(fn.body)
